@@ -366,6 +366,33 @@ def run(ck, P):
                   "'%s' (derived from '%s') is dereferenced at line %d after m_mem_unref(%s) at line %d may have freed it" % (bad[1], x, bad[0].line, x, u.line))
     ck.need(nu >= 5, "only %d local releases found" % nu)
 
+    ck.rule("C04.5-REG-REF-UNDER-LOCK", "R-PAIR: the call that drops a module's registration reference (removal from the context's module map, whose "
+            "destructor is mem_dtor) happens only while the function holds its own temporary reference on that module and keeps using it afterwards", floor=1)
+    nrm = 0
+    for f in core:
+        rms = [e for e in f.calls("m_map_remove") if S(e.args[0]).endswith("->modules")]
+        for e in rms:
+            nrm += 1
+            ck.analysed(f)
+            # module variable: the one whose ->name is the key
+            key = strip(e.args[1])
+            mv = S(key["base"]) if key["k"] == "member" and key["field"] == "name" else None
+
+            def step_r(st, ev, mv=mv):
+                if ev.kind == "call" and ev.callee == "m_mem_ref" and mv and S(ev.args[0]) == mv:
+                    return st | {"pinned"}
+                if ev.kind == "call" and ev.callee == "m_mem_unref" and mv and S(ev.args[0]) == mv:
+                    return st - {"pinned"}
+                return st
+            INr = rules.tag_analysis(f, step_r, must=True)
+            stt = f.state_before(INr, e, step_r)
+            ok = mv is not None and stt is not None and "pinned" in stt
+            ck.ob("C04.5-REG-REF-UNDER-LOCK", f.site("m_map_remove(modules) pinned"), ok,
+                  "registration reference of '%s' dropped at line %d while a temporary reference is held" % (mv, e.line) if ok else
+                  "the module is removed from the context's map at line %d (dropping what may be its last reference) before the function pinned it: "
+                  "everything the function does with it afterwards reads freed memory" % e.line)
+    ck.need(nrm >= 1, "removal from the module map vanished")
+
     # ------------------------------------------------------------------ 6. destructor completeness
     ck.rule("C04.6-DTOR-COMPLETE", "R-RESET-ALL flavour: module_dtor and ctx_dtor release every owning field of their struct: each container field "
             "through its *_free, the context reference, name/userdata under their AUTOFREE flags", floor=10)
